@@ -75,6 +75,7 @@ def num_lines(text: str) -> int:
 
 # ---- regex ------------------------------------------------------------------------------------------------
 _RX_CACHE = {}
+_GLOBAL_FLAGS = re.compile(r'\(\?[aimsx]+\)')
 
 
 def compile_rx(rx: dict, full: bool = False):
@@ -85,7 +86,10 @@ def compile_rx(rx: dict, full: bool = False):
         pat = rx['pat']
         if full:
             # "REGEX must match the full text": some match of REGEX starts at the beginning and ends at the end
-            pat = r'\A(?:' + pat + r')\Z'
+            # (global inline flags such as (?m) must stay at the very start of a Python pattern)
+            m = _GLOBAL_FLAGS.match(pat)
+            prefix = m.group(0) if m else ''
+            pat = prefix + r'\A(?:' + pat[len(prefix):] + r')\Z'
         c = re.compile(pat, flags)
         if len(_RX_CACHE) > 4000:
             _RX_CACHE.clear()
